@@ -25,7 +25,8 @@ EXPLANATION = (
     "every path through ResolveBinaryExpressionType ends in `return ExpressionType(...)` or a raise - none falls off the end; "
     "R09.5 the five structural guards are present as path conditions (vector comparison needs equal counts, DIV needs a scalar "
     "right operand, MUL needs matching inner dimensions, the fallback needs equal kinds, scalar*scalar is exempt from the "
-    "shape rules)."
+    "shape rules); the matrix-product tail is folded over all shapes (r x k) * (k' x c), 1..4 each: rejected unless k = k', "
+    "typed rows(left) x columns(right), a vector exactly when that is a single column."
 )
 NOT_DECIDED = "the accept/result table itself over concrete types (shapes are values); a faithful abstract evaluation would be the concrete one"
 ASSUMPTIONS = ["ErrorMessage.Raise never returns"]
@@ -159,6 +160,13 @@ def run(model, col, tier):
     rz = model.cls("nsl/Errors.py", "ErrorMessage").own_method("Raise")
     col.check(len(rz.body) == 1 and isinstance(rz.body[0], ast.Raise) and "CompileException(self, *args)" in unparse(rz.body[0]), "R09.4", "nsl/Errors.py::ErrorMessage.Raise never returns", "raise CompileException(self, *args)",
               "ErrorMessage.Raise can return: every rejection path would fall through", "nsl/Errors.py", rz)
+    # ---------------- R09.5 the shape of a matrix product, folded over all small shapes ------------------------
+    fp = fold_matrix_product(model, rb)
+    if fp is None:
+        col.ok("R09.5", f"{TYPES}::ResolveBinaryExpressionType matrix product shape", "not folded (the product tail is not in a foldable form); the guard inventory below still applies")
+    else:
+        col.check(not fp[1], "R09.5", f"{TYPES}::ResolveBinaryExpressionType matrix product shape", f"{fp[0]} shape pairs: inner dimensions must agree; rows(left) x columns(right), a vector iff that is one column",
+                  "; ".join(fp[1][:3]) + f" ({len(fp[1])} of {fp[0]}): the product has another type than rows(left) x columns(right)", TYPES, rb)
     # ---------------- R09.5 guard inventory --------------------------------------------
     guards = {"vector comparison needs equal component counts": False, "DIV needs a scalar right operand": False, "MUL needs matching inner dimensions": False,
               "fallback needs equal kinds": False, "scalar op scalar is exempt from the shape rules": False}
@@ -225,6 +233,76 @@ def run(model, col, tier):
     pt9 = grc.args.args[0].arg
     col.check(f"return {pt9}.GetSize[0], 1" in t and "return 1, 1" in t and f"return {pt9}.GetSize" in t, "R09.5", f"{TYPES}::_GetRowsColumns", "matrix -> (rows, cols), vector -> (n, 1), scalar -> (1, 1)", "the shapes used by the MUL rule changed", TYPES, grc)
     check_builtin_names(model, col, "R09.7")
+
+
+def fold_matrix_product(model, rb):
+    """The tail of ResolveBinaryExpressionType that types `matrix * matrix|vector` (everything from the statement that reads
+    the shapes with _GetRowsColumns), folded over all shapes (r x k) * (k' x c) with r, k, k', c in 1..4.
+    -> (number folded, [counter-examples]) or None if the tail is not foldable."""
+    import itertools
+
+    from ..miniev import CannotEval, Sample, run_block, run_pure
+
+    opn, ln, rn = (a.arg for a in rb.args.args[:3])
+    tail = None
+    for n in ast.walk(rb):
+        for fld in ("body", "orelse"):
+            blk = getattr(n, fld, None)
+            if not isinstance(blk, list):
+                continue
+            for i, st in enumerate(blk):
+                if isinstance(st, ast.Assign) and isinstance(st.value, ast.Call) and last_attr(st.value) == "_GetRowsColumns" and st.value.args and unparse(st.value.args[0]) == ln:
+                    tail = blk[i:]
+    if tail is None:
+        return None
+
+    class Signal(Exception):
+        pass
+
+    calls = {}
+    for name, f in model.file(TYPES).functions.items():
+        calls[name] = (lambda *a, f=f: run_pure(f, list(a), calls))
+    for c in ast.walk(rb):
+        if isinstance(c, ast.Call) and last_attr(c) == "Raise" and isinstance(c.func, ast.Attribute):
+            nm = unparse(c.func.value).split(".")[-1]
+
+            def mk(nm=nm):
+                def raiser(*a):
+                    raise Signal(nm)
+                return raiser
+
+            calls[unparse(c.func)] = mk()
+    calls["VectorType"] = lambda ct, n: ("vector", ct, n)
+    calls["MatrixType"] = lambda ct, r, c: ("matrix", ct, r, c)
+    calls["ExpressionType"] = lambda t, ops=None: ("expr", t, ops)
+    bad = []
+    n = 0
+    for r, k, k2, c in itertools.product((1, 2, 3, 4), repeat=4):
+        shapes = {"L": (r, k), "R": (k2, c)}
+        calls["_GetRowsColumns"] = lambda s: shapes[s.label]
+        L = Sample("L", {"WithComponentType": lambda ct: ("L", ct), "IsScalar": False})
+        R = Sample("R", {"WithComponentType": lambda ct: ("R", ct), "IsScalar": False})
+        env = {ln: L, rn: R, opn: "MUL", "baseType": "T"}
+        try:
+            out = run_block(tail, env, calls)
+            got = ("return", out.get("$return")) if out.get("$return") is not None else ("fell through", None)
+        except Signal as sg:
+            got = ("error", str(sg))
+        except CannotEval:
+            return None
+        except Exception:
+            return None
+        n += 1
+        if k != k2:
+            ok = got[0] == "error" and "INVALID_BINARY" in got[1]
+            want = "the invalid-operation error"
+        else:
+            want_t = ("vector", "T", r) if c == 1 else ("matrix", "T", r, c)
+            ok = got[0] == "return" and isinstance(got[1], tuple) and got[1][:2] == ("expr", want_t)
+            want = f"{want_t}"
+        if not ok:
+            bad.append(f"({r}x{k}) * ({k2}x{c}): {got[0]} {got[1]}, expected {want}")
+    return n, bad
 
 
 def _namedtuples(model, rel):
